@@ -384,10 +384,18 @@ outer:
 
 			if nout != 0 {
 				r, _ := utf8.DecodeRune(utfb[:nout])
-				if r != utf8.RuneError {
-					ev := NewEventKey(KeyRune, r, ModNone)
-					s.postEvent(ev)
+				if r == utf8.RuneError {
+					// Not a character (yet).  The decoder is told
+					// that the input ends here, so it substitutes
+					// for what may be the start of a multi-byte
+					// character: try the longer prefixes.
+					if l < utf8.UTFMax {
+						continue
+					}
+					break
 				}
+				ev := NewEventKey(KeyRune, r, ModNone)
+				s.postEvent(ev)
 				b = b[nin:]
 				continue outer
 			}
